@@ -284,7 +284,9 @@ void TraceRecorder::saveLog(const char *logFile, const char *processName)
   }
   // We need to remove the last , we output to ensure the JSON array is correct
   // Overwrite it with the ] character.
-  fout.seekp(-1, std::ios::cur);
+  // (if nothing at all was written the '[' must stay)
+  if (processName || !threadTrace.empty())
+    fout.seekp(-1, std::ios::cur);
   fout << "]";
 }
 
